@@ -95,7 +95,7 @@ PLAN = {
         "vacuity": [("DevNoPass", "CfgsQ1", "NoServiceableWaiter")],
         "scen_quick": ["h1-max1-AAB", "h1-max1-pto", "h1-guess-max1", "h2-max1-BAB"],
         "scen_thorough": ["h1-max1-AAB", "h1-max1-pto", "h1-max1-pto-AB", "h1-guess-max1", "h1-guess-max2", "h1-max2-AAAA", "h1-max1-close", "h1-max1-abandon", "h1-max3-ABCAB", "h2-max1-BAB", "h2-max1-AAB", "fwd-max1-AAB", "tun-max1-AAB", "h2-alpn-max2-AAAB"],
-        "strategies": ["base", "dfs", "fault", "cancel-scope"],
+        "strategies": ["base", "dfs", "fault", "cancel-scope", "stale-scripts"],
     },
     "C01": {
         "scen_trio": ["h1-max1-mixed-ends"],
@@ -338,6 +338,10 @@ class PoolRunner:
         self.explore_trio(quick)
         if "keepalive-scripts" in self.plan["strategies"]:
             self.keepalive_scripts(quick)
+        elif "stale-scripts" in self.plan["strategies"]:
+            # (C07: a request for an origin whose idle connection has gone stale must be served - the slot of a
+            #  connection that is being closed is free)
+            self.stale_run_scripts(quick, 0)
 
     def explore_trio(self, quick):
         """The same scenarios with the async pool running under TRIO (trio.Lock / Event / Semaphore,
@@ -459,7 +463,7 @@ class PoolRunner:
         from .pool_scenarios import Scenario, c
 
         hosts = ["http://a.test", "http://b.test", "http://c.test", "http://d.test"]
-        for k_or in (2, 3, 4):
+        for k_or in (1, 2, 3, 4):
             kinds = ["expire", "peerclose", "mixed"]
             for kind in kinds:
                 for target in range(k_or):
